@@ -3,6 +3,8 @@ package store
 
 import (
 	"bytes"
+	"crypto/sha256"
+	"encoding/hex"
 	"io"
 	"path/filepath"
 
@@ -26,7 +28,7 @@ var (
 )
 
 func verifPickName() {
-	k := verif.Len("good-len", 0, verif.Bound("blob-len", 2, 4))
+	k := verif.Len("good-len", 0, verif.Bound("blob-len", 2, 3))
 	verifGood = []byte("abcd"[:k])
 	d, err := core.NewDigester().FromBytes(verifGood)
 	if err != nil {
@@ -57,13 +59,20 @@ func verifCAS(mem bool, maxSize uint64) *CAStore {
 	return cas
 }
 
-// verifMatches is the (symbolic) fact "b hashes to verifD".
+// verifMatches is the (symbolic) fact "b hashes to verifD", stated on the raw
+// SHA-256 bytes (hex encoding is injective, so this is the same fact as
+// comparing the hex digests, but far cheaper for the solver than 64
+// table-lookup characters).
 func verifMatches(b []byte) bool {
-	d, err := core.NewDigester().FromBytes(b)
-	if err != nil {
-		panic(err)
+	sum := sha256.Sum256(b)
+	want, err := hex.DecodeString(verifD)
+	if err != nil || len(want) != len(sum) {
+		panic("bad reference digest")
 	}
-	m := d.Hex() == verifD
+	m := true
+	for i := range sum {
+		m = verif.And(m, sum[i] == want[i])
+	}
 	verif.Assume(verif.Implies(m, bytes.Equal(b, verifGood)))
 	return m
 }
@@ -164,7 +173,7 @@ type verifBlob struct {
 }
 
 func verifSymBlob(tag string, path int) verifBlob {
-	maxLen := verif.Bound("blob-len", 2, 4)
+	maxLen := verif.Bound("blob-len", 2, 3)
 	b := verifBlob{pieceLength: 1}
 	b.data = verif.Bytes(tag+"data", verif.Len(tag+"len", 0, maxLen))
 	if path == 2 {
@@ -245,7 +254,7 @@ func VerifSecondWriteKeepsName() {
 func VerifFindingMemoryPathUnverified() {
 	verifPickName()
 	b := verifSymBlob("", 2)
-	cas := verifCAS(true, uint64(verif.Bound("blob-len", 2, 4)))
+	cas := verifCAS(true, uint64(verif.Bound("blob-len", 2, 3)))
 	matches := verifMatches(b.data)
 	err := verifWrite(cas, 2, b.data, b.size, b.pieceLength)
 	verif.Cover("in-memory", err == nil && cas.CheckInMemCache(verifD))
